@@ -1,7 +1,7 @@
 (** C05 — expressions evaluate with conventional, self-consistent semantics. *)
 From Coq Require Import List ZArith NArith Lia Bool Reals Floats.SpecFloat.
 From Flocq Require Import Core IEEE754.BinarySingleNaN.
-From AG Require Import Str F64 Value Json Expr Ops Pipeline F64_proofs F64_exact_proofs Value_proofs Expr_proofs Grammar Print Roundtrip_proofs Hex_proofs.
+From AG Require Import Str F64 Value Json Expr Ops Pipeline F64_proofs F64_exact_proofs Value_proofs Expr_proofs Grammar Print Roundtrip_proofs Hex_proofs Norm_proofs.
 Import ListNotations.
 Open Scope Z_scope.
 
@@ -15,8 +15,8 @@ Print Assumptions C05_int_exact.
 
 (** ... and beyond the 64-bit range the result is the float computation, never a wrapped integer *)
 Theorem C05_int_overflow_is_float : forall a b,
-  (in_i64 (a + b) = false -> vadd (VInt a) (VInt b) = Ok (VFloat (fadd (f_of_Z a) (f_of_Z b)))) /\
-  (in_i64 (a * b) = false -> vmul (VInt a) (VInt b) = Ok (VFloat (fmul (f_of_Z a) (f_of_Z b)))).
+  (in_i64 (a + b) = false -> vadd (VInt a) (VInt b) = Ok (from_float (fadd (f_of_Z a) (f_of_Z b)))) /\
+  (in_i64 (a * b) = false -> vmul (VInt a) (VInt b) = Ok (from_float (fmul (f_of_Z a) (f_of_Z b)))).
 Proof. intros; split; [apply vadd_int_overflow | apply vmul_int_overflow]. Qed.
 Print Assumptions C05_int_overflow_is_float.
 
@@ -175,6 +175,39 @@ Example C05_parse_hex_examples :
   parse_hex (lit "8000000000000000") = Err /\ parse_hex (lit "0x0x1f") = Ok (VInt 31) /\
   to_hex false 255 = lit "ff" /\ to_hex true 48879 = lit "BEEF" /\ to_hex false 0 = lit "0".
 Proof. exact parse_hex_examples. Qed.
+
+(** THE INVARIANT BEHIND == : a number that is integral and within the i64 range is always an Int, never a
+    Float.  Every producer keeps it (extraction from text and JSON, the four arithmetic operations - whatever
+    their operands -, [from_float]); on values that respect it the order and the equality agree, so exactly
+    one of <, ==, > holds.  Without it they do not: [VFloat (-2^63)] against [VInt i64_min] is neither <, == nor >
+    (the repair 00e4db6 of this project produced such a value and was withdrawn, d2a8efa). *)
+Theorem C05_values_are_normalised :
+  (forall f, normalised (from_float f) /\ i64_ints (from_float f)) /\
+  (forall s, normalised (from_string s) /\ i64_ints (from_string s)) /\
+  (forall j, normalised (json_to_value j) /\ i64_ints (json_to_value j)) /\
+  (forall a b v, (vadd a b = Ok v \/ vsub a b = Ok v \/ vmul a b = Ok v \/ vdiv a b = Ok v) -> normalised v /\ i64_ints v).
+Proof.
+  split; [intros; split; [apply from_float_normalised | apply from_float_i64]|].
+  split; [intros; split; [apply from_string_normalised | apply from_string_i64]|].
+  split; [intros; split; [apply json_to_value_normalised | apply json_to_value_i64]|].
+  intros a b v [H|[H|[H|H]]]; split;
+    first [ exact (vadd_normalised _ _ _ H) | exact (vadd_i64 _ _ _ H) | exact (vsub_normalised _ _ _ H) | exact (vsub_i64 _ _ _ H)
+          | exact (vmul_normalised _ _ _ H) | exact (vmul_i64 _ _ _ H) | exact (vdiv_normalised _ _ _ H) | exact (vdiv_i64 _ _ _ H) ].
+Qed.
+Print Assumptions C05_values_are_normalised.
+Theorem C05_trichotomy : forall a b,
+  normalised a -> normalised b -> i64_ints a -> i64_ints b ->
+  (vltb a b = true /\ veqb a b = false /\ vgtb a b = false) \/
+  (vltb a b = false /\ veqb a b = true /\ vgtb a b = false) \/
+  (vltb a b = false /\ veqb a b = false /\ vgtb a b = true).
+Proof. exact trichotomy. Qed.
+Print Assumptions C05_trichotomy.
+Example C05_unnormalised_value_breaks_trichotomy :
+  vltb (VFloat (f_of_Z i64_min)) (VInt i64_min) = false /\
+  veqb (VFloat (f_of_Z i64_min)) (VInt i64_min) = false /\
+  vgtb (VFloat (f_of_Z i64_min)) (VInt i64_min) = false /\
+  vsub (VInt i64_min) (VInt 1) = Ok (VInt i64_min).
+Proof. vm_compute. repeat split. Qed.
 
 Theorem C05_precedence_roundtrip : forall (o : popts) (e : expr) (rest : str),
   popts_ok o = true -> wf_expr e = true -> stopb rest = true ->
